@@ -67,6 +67,13 @@ def strategy_(draw, tier):
     ids = list(g["nodes"])
     untag = draw(st.lists(st.sampled_from(ids), max_size=max(1, len(ids) // 4), unique=True))
     extra = tag_graph(g, untag, no_scale=draw(st.sampled_from([1, 1, 4, 7])), bo_scale=draw(st.sampled_from([1, 1, 3, 25])))
+    if draw(st.integers(0, 4)) == 0:
+        # scaffold nodes (NO = 0) need not be rank 0: a chromosome whose backbone is a haplotype contig
+        c = draw(st.sampled_from(g["chroms"]))
+        for n_ in c["nodes"]:
+            if g["nodes"][n_]["sr"] == 0:
+                g["nodes"][n_]["sr"] = 2
+                g["nodes"][n_]["sn"] = "alt#2#" + c["name"]
     lm = models.LinkModel(g["links"])
     pool = draw(st.lists(st.sampled_from(ids), min_size=1, max_size=3, unique=True))
     n = draw(st.integers(2, 14))
@@ -204,7 +211,7 @@ def run_case(case):
     ks = [k for k, _, _ in info]
     classes = []
     desc_no = False
-    for i in range(len(ks)):
+    for i in range(len(ks) if len(ks) <= 2000 else 0):
         for j in range(i + 1, len(ks)):
             a, b = ks[i], ks[j]
             if len(a) == 4 and len(b) == 4 and a[1] == b[1] and a[2] > b[2]:
@@ -225,6 +232,11 @@ def run_case(case):
         classes.append("NO>=10")
     if case.get("perms"):
         classes.append("with_permutation_reruns")
+    if any(d.get("NO") == 0 and d.get("SR") != 0 for d in nodes.values()):
+        classes.append("scaffold_node_not_rank0")
+    if len(lines) > 65536:
+        classes.append("records>65536")
+        return core.Result(True, classes)
     nontrivial = len(lines) >= 3 and (desc_no or untag_mixed)
     return core.Result(nontrivial, classes)
 
@@ -276,3 +288,14 @@ def enumerations(tier, shard, nshards):
                     yield {"gfa": POOL_GFA, "gaf": [POOL[i] for i in perm], "perms": []}
 
     yield ("all permutations of every 2..%d-record subset of the 8-record near-tie pool" % max_k, gen(), True)
+
+    if shard == 0:
+        def big():
+            import random
+
+            rnd = random.Random(8)
+            n = 70000
+            order = [rnd.randrange(len(POOL)) for _ in range(n)]
+            yield {"gfa": POOL_GFA, "gaf": [POOL[k].replace("p%d\t" % k, "u%d\t" % i, 1) for i, k in enumerate(order)], "perms": []}
+
+        yield ("70 000 records (more than 2^16) drawn from the near-tie pool in pseudo-random order", big(), True)
